@@ -110,6 +110,20 @@ func init() {
 		Assume:    []string{"single caller (interleavings are C14's subject)", "the GC is driven by Send, so 'eventually discarded' is judged only after later sends"},
 		QuickRuns: 6000, QuickSecs: 60, ThorRuns: 100000, ThorSecs: 900, Batch: 150,
 	})
+	connReal := []string{"net.go: ServiceConnections, handleConn, authenticateConnection, readMsg, Handshake.Read/Write, SocketRemoteParties.Send, remoteParty.sendMessages/maybeConnect/send (tls.Dial call redirected to the simulator's dialer by go build -overlay)", "crypto/tls 1.3 (real handshakes, records, exporter)", "testutil/tlsgen (CA, server and identity certificates)"}
+	connStub := []string{"byte-stream network (in-memory pipes; the simulator releases chunks at seeded boundaries, stalls, flips bits, resets, refuses dials)", "message consumers (recording)", "logger (counting stub)"}
+	Register(&Check{
+		ID: "C16", Engine: "connsim", Overlay: "connsim", Real: connReal, Stub: append([]string{"adversarial clients (harness code: genuine TLS handshake, then a handshake variant and a marker frame)", "reference authentication model (harness, written from the statement)"}, connStub...),
+		Rule:      "one case = one seeded run of 3..4 real transport parties exchanging honest traffic while 2..6 adversarial connections arrive at seeded points; the 27 handshake variants (valid, old timestamp, binding flipped / empty / of another connection / replayed, identity of another node / unregistered / empty / with leading or trailing junk, signature by another node / unregistered key / over another binding / over another domain / missing / garbage, domain altered or differently signed, RSA / Ed25519 / P-384 identities, truncation at a seeded point, short / long length prefix, noise, trailing bytes) are walked by the run index; byte streams are released in seeded chunks; distinct = distinct sequence of (pipe, event) choices; non-trivial = at least one adversarial connection was rejected while honest traffic was delivered",
+		Assume:    []string{"the adversary cannot break TLS or ECDSA; it may hold certificates of the same CA and may be a registered node itself"},
+		QuickRuns: 600, QuickSecs: 100, ThorRuns: 12000, ThorSecs: 1200, Batch: 15,
+	})
+	Register(&Check{
+		ID: "C17", Engine: "connsim", Overlay: "connsim", Real: connReal, Stub: append([]string{"a registered peer that frames by hand (odd write pieces, oversize announcement)"}, connStub...),
+		Rule:      "one case = one seeded run of 3..4 real transport parties with 2..5 concurrently sending goroutines (2..9 messages each; types 0/1/2/3/200 with legal topic combinations; payload lengths 0,1,31,32,33,4 KiB+-1,64 KiB+-1, 1 MiB, thorough: limit-1 and limit) and one configuration: fault-free, or one peer down / stalled / garbling / reset mid-stream / flooded while down (1100 messages) / a hand-framing peer announcing limit+1 / writing valid frames in odd pieces; the byte streams are released in seeded chunks (short reads at arbitrary boundaries); distinct = distinct sequence of (pipe, event) choices; non-trivial = messages were received and at least one release split the pending bytes of a pipe",
+		Assume:    []string{"TLS record contents and ECDSA signatures vary between executions: schedules are expressed in pipe-level events and replay at frame level, not byte offsets"},
+		QuickRuns: 400, QuickSecs: 100, ThorRuns: 8000, ThorSecs: 1200, Batch: 10,
+	})
 	Register(&Check{
 		ID: "C19", Engine: "netsim",
 		Real:      []string{"mpc/binance/eddsa and mpc/binance/ecdsa adapters (ClassifyMsg, OnMsg, KeyGen, Sign)", "bnb-chain/tss-lib v2.0.2 (real protocol, its own goroutines)", "threshold.Scheme", "rbc.Receiver", "disc.Member", "disc.SilentSynchronizer", "msg.Box", "crypto/ed25519 and crypto/ecdsa as independent verifiers"},
